@@ -2,6 +2,7 @@ package world
 
 import (
 	gocontext "context"
+	"io"
 	"net/http"
 	"net/url"
 	"sort"
@@ -39,6 +40,12 @@ func (w *World) Serve(q *Req) {
 	u := &url.URL{Path: q.Path, RawQuery: q.Query}
 	req := (&http.Request{Method: q.Method, URL: u, Header: h, Proto: "HTTP/1.1", ProtoMajor: 1, ProtoMinor: 1,
 		Host: "sim", RequestURI: q.Path, RemoteAddr: "192.0.2." + itoa(q.ID%250) + ":4000"}).WithContext(ctx)
+	if q.Body != "" {
+		req.Body = io.NopCloser(strings.NewReader(q.Body))
+		req.ContentLength = int64(len(q.Body))
+	} else {
+		req.Body = http.NoBody
+	}
 	q.HTTP = req
 	func() {
 		defer func() {
@@ -170,4 +177,4 @@ func (q *Req) DescribeProgs() []string {
 
 // OpNames for reports.
 var OpNames = []string{"yield", "writeHeader", "write", "flush", "next", "nextSwallow", "cancel", "mapExtra", "seeExtra", "panic", "echo",
-	"mark", "checkMark", "setHeader", "before", "render", "redirect", "status", "cookie", "seeSvc", "seeHeaders", "mapIface", "seeIface", "invoke", "apply", "seePath", "replaceCtx"}
+	"mark", "checkMark", "setHeader", "before", "render", "redirect", "status", "cookie", "seeSvc", "seeHeaders", "mapIface", "seeIface", "invoke", "apply", "seePath", "seeBody", "mapReturnHandler", "mutQuery", "replaceCtx"}
